@@ -58,6 +58,7 @@ func checkC02(ctx *Ctx, r *Report) {
 	c02GoRuntimeDefines(ctx, r)
 	c02GoTemplateIdentifiersEscaped(ctx, r)
 	c02PythonMethodNamesEscaped(ctx, r)
+	c02PythonClassNamesEscaped(ctx, r)
 }
 
 // kindConsts: the constants of ast.Kind / ast.ScalarKind.
@@ -1835,6 +1836,21 @@ func c02PythonIdentifierCharacters(ctx *Ctx, r *Report) {
 		r.Check(calls, "skeleton/python-identifier-characters", "python."+name+" sanitises the characters of the name", fd.Pos(), "the name goes through identifierCharacters",
 			"python."+name+" only changes the case of the name: a property named `@type`, `a.b` or `1st` (an enum member `1h`) is written as it is where an identifier is needed — SyntaxError when the module is imported, while the run succeeds and the Go output handles the same schema")
 	}
+	// the sanitiser keeps the letters Python accepts in an identifier, which are not only ASCII: a member `été`
+	// turned into `_T_` is a reserved sunder name
+	if sfd, _ := ctx.DeclOf(san); sfd != nil && sfd.Body != nil {
+		unicodeLetters := false
+		ast.Inspect(sfd.Body, func(m ast.Node) bool {
+			if c, ok := m.(*ast.CallExpr); ok {
+				if f := callee(info, c); f != nil && f.Pkg() != nil && f.Pkg().Path() == "unicode" && (f.Name() == "IsLetter" || f.Name() == "In" || f.Name() == "Is") {
+					unicodeLetters = true
+				}
+			}
+			return true
+		})
+		r.Check(unicodeLetters, "skeleton/python-identifier-characters", "python.identifierCharacters keeps non-ASCII letters", sfd.Pos(), "letters are recognised with the unicode package",
+			"identifierCharacters replaces every character outside [A-Za-z0-9] by an underscore: the enum member `été` becomes `_T_`, a reserved sunder name — ValueError when the models module is imported")
+	}
 	// the hint that names local variables of from_json
 	fromJSON := ctx.LookupMethod("internal/jennies/python", "RawTypes", "fromJSONForType")
 	n := 0
@@ -2594,6 +2610,116 @@ func c02PythonMethodNamesEscaped(ctx *Ctx, r *Report) {
 		r.Check(escaped[k], "kinds/python-method-names-escaped", "python.escapeFunctionName escapes "+k, token.NoPos, needed[k]+": escaped when a field has that name",
 			needed[k]+": the class body relies on `"+k+"` after the options are defined and escapeFunctionName lets a method of that name through: a field named `"+k+"` gives `def "+k+"(…)`, which shadows it for everything that follows — the builders module fails on import (TypeError: 'function' object is not subscriptable) or build() is replaced")
 	}
+	// attributes: the methods the *models* define on every class (rawtypes.go writes `def to_json(`, `def from_json(`)
+	// must be known to escapeKeyword, which formatIdentifier applies to attribute names
+	attrEscaped := map[string]bool{}
+	if kfd, _ := ctx.DeclOf(ctx.LookupFunc("internal/jennies/python", "escapeKeyword")); kfd != nil && kfd.Body != nil {
+		ast.Inspect(kfd.Body, func(q ast.Node) bool {
+			if lit, ok := q.(*ast.BasicLit); ok && lit.Kind == token.STRING {
+				if tv, ok := info.Types[lit]; ok && tv.Value != nil {
+					attrEscaped[constant.StringVal(tv.Value)] = true
+				}
+			}
+			return true
+		})
+	}
+	methods := map[string]string{}
+	for _, file := range p.Syntax {
+		ast.Inspect(file, func(m ast.Node) bool {
+			lit, ok := m.(*ast.BasicLit)
+			if !ok || lit.Kind != token.STRING {
+				return true
+			}
+			tv, ok := info.Types[lit]
+			if !ok || tv.Value == nil || tv.Value.Kind() != constant.String {
+				return true
+			}
+			for _, mm := range regexp.MustCompile(`def ([a-z][a-z0-9_]*)\(`).FindAllStringSubmatch(constant.StringVal(tv.Value), -1) {
+				if !strings.HasPrefix(mm[1], "__") {
+					if _, ok := methods[mm[1]]; !ok {
+						methods[mm[1]] = ctx.Pos(lit.Pos())
+					}
+				}
+			}
+			return true
+		})
+	}
+	var mnames []string
+	for k := range methods {
+		mnames = append(mnames, k)
+	}
+	sort.Strings(mnames)
+	for _, k := range mnames {
+		r.Check(attrEscaped[k], "kinds/python-method-names-escaped", "python.escapeKeyword escapes the attribute name "+k, token.NoPos, methods[k]+": a method of the generated classes, escaped when a property has that name",
+			methods[k]+": the models define `def "+k+"(` on every class and escapeKeyword lets an attribute of that name through: a property named `"+k+"` becomes an instance attribute that takes the place of the method — TypeError: 'str' object is not callable when the object is encoded")
+	}
+	r.Count("methods the generated Python classes define", len(mnames))
+	r.Floor("methods the generated Python classes define", 2)
 	r.Count("names the body of a generated Python class relies on", len(names))
 	r.Floor("names the body of a generated Python class relies on", 8)
+}
+
+// c02PythonClassNamesEscaped: a Python class is named after its object. `None`, `True` and `False` are keywords with
+// a capital: formatObjectName has to consult the keyword predicate, and every class name the jenny writes has to go
+// through formatObjectName — no direct tools.UpperCamelCase of an object's name or of a reference's referred type.
+func c02PythonClassNamesEscaped(ctx *Ctx, r *Report) {
+	p := ctx.Pkg("internal/jennies/python")
+	if p == nil {
+		return
+	}
+	info := p.TypesInfo
+	fmtObj := ctx.LookupFunc("internal/jennies/python", "formatObjectName")
+	fd, _ := ctx.DeclOf(fmtObj)
+	if fd == nil || fd.Body == nil {
+		r.Undecided("anchor lost: python.formatObjectName")
+		return
+	}
+	consults := false
+	ast.Inspect(fd.Body, func(m ast.Node) bool {
+		if c, ok := m.(*ast.CallExpr); ok {
+			if f := callee(info, c); f != nil && f.Name() == c02ReservedPredicates["python"] {
+				consults = true
+			}
+		}
+		return true
+	})
+	r.Check(consults, "kinds/python-class-names-escaped", "python.formatObjectName escapes keywords", fd.Pos(), "the keyword predicate is consulted",
+		"formatObjectName only changes the case of the name: an object named None, True or False is written `class None:` — SyntaxError, the models module can not be imported")
+	n := 0
+	for _, file := range p.Syntax {
+		var fname string
+		ast.Inspect(file, func(m ast.Node) bool {
+			if d, ok := m.(*ast.FuncDecl); ok {
+				fname = d.Name.Name
+			}
+			c, ok := m.(*ast.CallExpr)
+			if !ok || len(c.Args) != 1 || fname == "formatObjectName" {
+				return true
+			}
+			f := callee(info, c)
+			if f == nil || f.Name() != "UpperCamelCase" {
+				return true
+			}
+			sel, ok := ast.Unparen(c.Args[0]).(*ast.SelectorExpr)
+			if !ok {
+				return true
+			}
+			fv := fieldOf(info, sel)
+			if fv == nil || fv.Pkg() == nil || fv.Pkg().Path() != astPkgPath {
+				return true
+			}
+			owner := ""
+			if nt := namedOf(info.TypeOf(sel.X)); nt != nil {
+				owner = nt.Obj().Name()
+			}
+			if !((owner == "Object" && fv.Name() == "Name") || (owner == "RefType" && fv.Name() == "ReferredType")) {
+				return true
+			}
+			n++
+			r.Bad("kinds/python-class-names-escaped", fmt.Sprintf("python.%s formats %s without formatObjectName", fname, exprString(sel)), c.Pos(),
+				fmt.Sprintf("python.%s writes the class name of %s with tools.UpperCamelCase directly: keyword escaping (None, True, False) and any later rule of formatObjectName are skipped, the reference names a class that is declared under another name", fname, exprString(sel)))
+			return true
+		})
+	}
+	r.Count("class names formatted outside formatObjectName in the Python jenny", n)
 }
